@@ -6,7 +6,7 @@ from vlib import VERIF
 SPEC = os.path.join(VERIF, 'spec', 'proxy')
 
 
-async def realise(ctx, sq, n, scen, rnd, bigpost=False):
+async def realise(ctx, sq, n, scen, rnd, bigpost=False, patience=1.0):
     kinds, order = scen['kinds'], scen['order']
     if isinstance(kinds, dict):
         kinds = [kinds[str(i + 1)] for i in range(len(kinds))]
@@ -56,17 +56,18 @@ async def realise(ctx, sq, n, scen, rnd, bigpost=False):
         else:
             await c.send(stream)
         for i in range(N + 1):       # one extra read: a surplus response would be a violation
-            r = await peers.read_response(c.reader, methods[i] if i < N else 'GET', timeout=(10.0 if bigpost else 6.0) if i < N else 0.4)
+            r = await peers.read_response(c.reader, methods[i] if i < N else 'GET', timeout=(10.0 if bigpost else 6.0) * patience if i < N else 0.4)
             if r.status is None:
                 break
             tag = r.head.get('X-Verif-Tag') or ''
             bv = r.head.get('X-Verif-Bv')
             body_ok = r.complete and (r.framing == 'none' or (bv is not None and peers.project_body(r.body, int(bv))[0]))
             ev.append({'e': 'Resp', 'tag': tag, 'bodyOk': bool(body_ok), 'status': r.status})
+        ev.append({'e': 'End', 'openIdle': not c.reader.at_eof()})
     finally:
         c.close()
         await o.stop()
-    return {'ev': ev, 'kinds': kinds, 'order': order, 'responses': len(ev) - 1, 'n': N, 'bigpost': bool(bigpost)}
+    return {'ev': ev, 'kinds': kinds, 'order': order, 'responses': sum(1 for e in ev if e['e'] == 'Resp'), 'n': N, 'bigpost': bool(bigpost), 'scen': scen, 'seed_n': n}
 
 
 def run(ctx):
@@ -95,7 +96,22 @@ def run(ctx):
                 extra = [realise(ctx, sq, prefetch * 10000 + 5000 + j, s, random.Random(ctx.seed * 733 + j), bigpost=True)
                          for j, s in enumerate(withpost[:(20 if ctx.thorough else 6)])] if prefetch else []
                 return await escen.gather_limited([realise(ctx, sq, prefetch * 10000 + i + 1, s, random.Random(ctx.seed * 100003 + i)) for i, s in enumerate(part)] + extra, limit=8)
-            out += asyncio.run(main())
+            got = asyncio.run(main())
+            # T5, reproduce before reporting: a pipeline with a missing response is run again alone, twice, with more patience; it is
+            # kept as rejected only if both repetitions are rejected too (a loaded machine must not look like a lost response)
+            def strip(o):
+                return {'ev': [{k: e[k] for k in e if k != 'status'} for e in o['ev']]}
+            rj = escen.validate(ctx, os.path.join(SPEC, 'Trace_Pipeline.tla'), os.path.join(SPEC, 'Trace_Pipeline.cfg'), [strip(o) for o in got], 'pipeline-p%d' % prefetch)
+            for i in rj[:6]:
+                o = got[i]
+                if o['responses'] >= o['n']:
+                    continue
+                again = [asyncio.run(realise(ctx, sq, o['seed_n'] + 500000 + 1000 * t, o['scen'], random.Random(ctx.seed * 31 + t), bigpost=o['bigpost'], patience=2.5)) for t in range(2)]
+                rj2 = escen.validate(ctx, os.path.join(SPEC, 'Trace_Pipeline.tla'), os.path.join(SPEC, 'Trace_Pipeline.cfg'), [strip(a) for a in again], 'pipeline-re%d' % i)
+                if len(rj2) < len(again):
+                    ctx.add('not_reproduced', 1)
+                    got[i] = [a for k, a in enumerate(again) if k not in rj2][0]
+            out += got
             if not sq.alive():
                 ctx.violation('squid exited during the run', {'kind': 'exit', 'log': sq.tail_log()})
         finally:
@@ -104,8 +120,9 @@ def run(ctx):
                          [{'ev': [{k: e[k] for k in e if k != 'status'} for e in o['ev']]} for o in out], 'pipeline')
     ctx.log('realised %d pipelines; P-rejected %d' % (len(out), len(rej)))
     for i in rej[:5]:
-        ctx.violation('pipelined responses out of order / not one per request: kinds=%s completion=%s events=%s' % (out[i]['kinds'], out[i]['order'], json.dumps(out[i]['ev'])),
-                      {'kind': 'pipeline', 'scenario': out[i]})
+        o = {k: v for k, v in out[i].items() if k != 'scen'}
+        ctx.violation('pipelined responses out of order / not one per request: kinds=%s completion=%s events=%s' % (o['kinds'], o['order'], json.dumps(o['ev'])),
+                      {'kind': 'pipeline', 'scenario': o})
     short = [o for o in out if o['responses'] < o['n']]
     ctx.cov['impl_distinct'] = len({json.dumps([o['kinds'], o['order']]) for o in out})
     ctx.cov['pipelines_fully_answered'] = len(out) - len(short)
@@ -115,6 +132,6 @@ def run(ctx):
     for o in out[:2]:
         ctx.sample(o)
     ctx.cov['rule'] = ('classes = PipelineImpl.tla terminal states: request kinds (miss/hit/HEAD/POST) for 3 requests x upstream completion order, realised on one connection '
-                       'in one write with origin delays enforcing the completion order, pipeline_prefetch 1 and 3 (thorough: 0 too); responses read in order are validated '
+                       'in one write with origin delays enforcing the completion order, pipeline_prefetch 1 and 3 (thorough: 0 too); responses read in order, and whether the connection is still open and idle at the end, are validated '
                        'by TLC against Pipeline.tla. Non-trivial = distinct (kinds, order).')
     ctx.assumptions += ['Squid may answer fewer requests than sent (closing the connection); that is not a violation of ordering']
